@@ -41,6 +41,10 @@ CLAIMED = {
          'Exploration by generated search over ranger kind x variable form x :=/= x condition kind (label histogram in the evidence), nested ranges over the same collection, empty/nil variants with else branches, truthiness of loop bindings through every binding form.',
          'Trusts the reference interpreter; custom Ranger fixtures keep their own cursor and are driven by model and engine alike; zero-valued structs/arrays, -0.0 and nil interface elements are not used as conditions / printed.',
          'DESIGN.md section 5/C05'),
+ 'C07': ("property-based testing (rapid), model-based: generated programs mixing :=, =, multi-assignment, discard and probes at every nesting depth of if/range/block/yield-content/include/try, with shadowing across locals / Execute variables / globals / built-ins and the loop-variable capture idiom for every ranger kind; oracle = MiniJet reference interpreter with an explicit scope stack, plus the caller's VarMap after Execute",
+         "Exploration by generated search: expected output or expected failure ('=' without a visible variable) from an independent interpreter; after Execute the caller's VarMap must have the same keys and the values the model predicts.",
+         "Trusts the reference interpreter; '=' on names that exist only as global or built-in is not generated; yield arguments do not read parameter names.",
+         'DESIGN.md section 5/C07'),
 }
 PENDING = {}
 
